@@ -1,11 +1,13 @@
 import VermouthModel.C15
+import VermouthModel.C15_Cli
 open Proto C15
 
 /-
 request:  run <atoms> <edges> <params>
   atom   = [ key name|- chain|- resid|- resname|- icode|- oldresid|- pos ]   pos = - (missing) | [ ] (nan) | [ x y z ]
   edge   = [ u v ]
-  params = [ names sep upper2 [ bn bd ] [ mn md ] [ [ d2 kn kd ] ... ] dom ]   dom = [ 0 ] | [ 1 ] | [ 2 [ [ a b ] ... ] ]
+  params = [ names sep upper2 [ bn bd ] [ mn md ] [ [ d2 kn kd ] ... ] dom decay ]   dom = [ 0 ] | [ 1 ] | [ 2 [ [ a b ] ... ] ]
+           decay = - | [ [ an ad ] [ ln ld ] p ]   (integer power p: lets the model decide where the constant is the base exactly)
 response: error [ keys ] | none | nanwarn | bonds [ [ a b len5 kn kd ] ... ]
 -/
 
@@ -50,11 +52,19 @@ def domOf (t : Tok) : Option Domain := do
   | [Tok.int 2, rs] => pure (Domain.regions (← (← rs.list?).mapM pairOf))
   | _ => none
 
+/-- decay = - | [ [ an ad ] [ ln ld ] p ] -/
+def decayOf (t : Tok) : Option (Option Decay) :=
+  match t with
+  | Tok.none => some none
+  | Tok.list [a, lo, p] => do pure (some { a := ← ratOf a, lower := ← ratOf lo, p := ← p.nat? })
+  | _ => none
+
 def paramsOf (t : Tok) : Option Params := do
   match ← t.list? with
-  | [names, sep, up2, base, minf, ktab, dom] =>
+  | [names, sep, up2, base, minf, ktab, dom, decay] =>
       pure { names := ← strs? names, sep := ← sep.nat?, upper2 := ← up2.nat?, base := ← ratOf base,
-             minForce := ← ratOf minf, kTab := ← (← ktab.list?).mapM ktabOf, dom := ← domOf dom }
+             minForce := ← ratOf minf, kTab := ← (← ktab.list?).mapM ktabOf, dom := ← domOf dom,
+             decay := ← decayOf decay }
   | _ => none
 
 def optIntOf (t : Tok) : Option (Option Int) := t.optInt?
@@ -102,6 +112,56 @@ def encOutcome : Outcome → String
   | .nanWarning => "nanwarn"
   | .bonds bs => "bonds " ++ encList (bs.map encBond)
 
+/-
+request:  cli <elastic> <go> <toFF> <ef> <el> <eu> <ea> <ep> <em> <ermd> <eb> <eunit> <probes>
+  the six numbers: [ n d ] or - (option not given); ermd / eb / eunit: string or - ; probes: [ resid ... ]
+response: usage | noelastic | errint | errfaulty |
+          proc merge=<0|1> sel=<default|list> <names> <lower> <upper> <a> <p> <base> <minf> <rmd|-> dom=<0|1|2> <table>
+  table: for a region criterion its value on every ordered pair of probe residues
+-/
+def optRatOf (t : Tok) : Option (Option Rat) :=
+  match t with
+  | Tok.none => some none
+  | _ => (ratOf t).map some
+
+def optCharsOf (t : Tok) : Option (Option (List Char)) :=
+  match t with
+  | Tok.none => some none
+  | Tok.str s => some (some s.toList)
+  | _ => none
+
+def boolOf (t : Tok) : Option Bool :=
+  match t with
+  | Tok.int 0 => some false
+  | Tok.int 1 => some true
+  | _ => none
+
+def probeAtom (r : Int) : Atom := { (default : Atom) with oldResid := some r }
+
+def encCli (probes : List Int) : CliResult → String
+  | .usageError => "usage"
+  | .noElastic => "noelastic"
+  | .valueError true => "errfaulty"
+  | .valueError false => "errint"
+  | .processor m d p =>
+      let (kind, table) : String × List String :=
+        match p.dom with
+        | .always => ("0", [])
+        | .chain => ("1", [])
+        | .regions rs => ("2", probes.flatMap fun a => probes.map fun b =>
+            encBool (crit (.regions rs) (probeAtom a) (probeAtom b)))
+      " ".intercalate ["proc", "merge=" ++ encBool m, "sel=" ++ (if d then "default" else "list"),
+        encList (p.names.map encStr), encRat p.lower, encRat p.upper, encRat p.decayFactor, encRat p.decayPower,
+        encRat p.base, encRat p.minForce, encOptInt p.resMinDist, "dom=" ++ kind, encList table]
+
+def encUnit : UnitChoice → String
+  | .molecule => "molecule"
+  | .all => "all"
+  | .chain => "chain"
+  | .regions rs => "regions " ++ encList (rs.map fun r => encList [encInt r.1, encInt r.2])
+  | .errInt => "errint"
+  | .errFaulty => "errfaulty"
+
 def handle (_ : Unit) (toks : List Tok) : Unit × String :=
   let r : Option String :=
     match toks with
@@ -111,6 +171,13 @@ def handle (_ : Unit) (toks : List Tok) : Unit × String :=
         let p ← paramsOf params
         pure (encOutcome (run as es p))
     | [Tok.str "len5", d2] => do pure (encNat (len5Of (← d2.nat?)))
+    | [Tok.str "lenbounds", d2] => do
+        let b := lenBounds (← d2.nat?)
+        pure (encNat b.1 ++ " " ++ encNat b.2)
+    | [Tok.str "nodecay", dec, d2] => do
+        match ← decayOf dec with
+        | some d => pure (encBool (noDecay d (← d2.nat?)))
+        | none => none
     | [Tok.str "resolve", proc, vars] => do
         let p ← procOf proc
         let vs ← (← vars.list?).mapM varOf
@@ -123,11 +190,33 @@ def handle (_ : Unit) (toks : List Tok) : Unit × String :=
           | .error _ => "error"
           | .bonds (b :: bs) => encOutcome (.bonds (b :: bs)) ++ " bt=" ++ encInt r.2
           | o => encOutcome o))
+    | [Tok.str "shared", procs, sched] => do
+        let ps ← (← procs.list?).mapM procOf
+        let sc ← (← sched.list?).mapM fun t => do
+          match ← t.list? with
+          | [i, m] => pure (← i.nat?, ← molOf m)
+          | _ => none
+        pure (" ; ".intercalate ((runInterleaved ps sc).map fun r =>
+          match r.1 with
+          | .error _ => "error"
+          | .bonds (b :: bs) => encOutcome (.bonds (b :: bs)) ++ " bt=" ++ encInt r.2
+          | o => encOutcome o))
     | [Tok.str "region", rs, ra, rb] => do
         let regs ← (← rs.list?).mapM pairOf
         let a : Atom := { (default : Atom) with oldResid := some (← ra.int?) }
         let b : Atom := { (default : Atom) with oldResid := some (← rb.int?) }
         pure (encBool (crit (.regions regs) a b))
+    | [Tok.str "cli", el, go, ff, ef, lo, up, a, pw, em, ermd, eb, eunit, probes] => do
+        let args : CliArgs :=
+          { elastic := ← boolOf el, go := ← boolOf go, toFF := (← ff.str?).toList, ef := ← optRatOf ef,
+            el := ← optRatOf lo, eu := ← optRatOf up, ea := ← optRatOf a, ep := ← optRatOf pw, em := ← optRatOf em,
+            ermd := ← optCharsOf ermd, eb := ← optCharsOf eb, eunit := ← optCharsOf eunit }
+        pure (encCli (← ints? probes) (cliBuild args))
+    | [Tok.str "unit", s] => do pure (encUnit (parseUnit (← s.str?).toList))
+    | [Tok.str "pyint", s] => do pure (encOptInt (pyInt (← s.str?).toList))
+    | [Tok.str "render", rs] => do
+        let regs ← (← rs.list?).mapM pairOf
+        pure (encStr (String.ofList (renderRegions regs)) ++ " " ++ encUnit (parseUnit (renderRegions regs)))
     | _ => none
   ((), r.getD "bad-op")
 
